@@ -18,6 +18,8 @@ mod c08;
 mod c12;
 #[cfg(all(kani, feature = "power-of-two"))]
 mod c05;
+#[cfg(all(kani, feature = "power-of-two"))]
+mod c06;
 #[cfg(all(kani, not(feature = "compact")))]
 mod wf;
 #[cfg(all(kani, feature = "format"))]
